@@ -114,7 +114,15 @@ class C18(Prop):
                 ops.append(["TL", rng.choice([0, 1, 2, 5, 10, 100])])
             else:
                 ops.append(["TF", rng.random() < 0.5, rng.random() < 0.3, rng.random() < 0.3])
-        return {"gen": gen, "src": rows, "bait": bait, "ops": ops}
+        c = {"gen": gen, "src": rows, "bait": bait, "ops": ops}
+        x = rng.random()
+        if x < 0.25 and all(r[0] == "G" or (r[1] and r[2] >= 0) for r in rows) and rows and rows[0][0] == "F":
+            c["via_parser"] = True
+            c["gen"] = gen + "/parsed"
+        elif x < 0.4:
+            c["pre_mutate"] = True
+            c["gen"] = gen + "/after-other-results"
+        return c
 
     def generate(self, rng, tier):
         for _ in range(700 if tier == "quick" else 6000):
@@ -124,8 +132,33 @@ class C18(Prop):
 
     def run_impl(self, case):
         objs = [A.row_to_obj(r) for r in case["src"]]
+        if case.get("via_parser"):
+            # the source scaffold as the AGP reader builds it (every row its own object, twins included)
+            import io
+
+            from tola.assembly.assembly import Assembly
+            from tola.assembly.format import format_agp
+            from tola.assembly.parser import parse_agp
+
+            buf = io.StringIO()
+            format_agp(Assembly("x", scaffolds=[Scaffold("scf", objs)]), buf)
+            objs = list(parse_agp(io.StringIO(buf.getvalue()), "x").scaffolds[0].rows)
         ia = IndexedAssembly("asm", scaffolds=[Scaffold("scf", objs)])
         bait = A.row_to_obj(case["bait"])
+        if case.get("pre_mutate"):
+            # other results of the same scaffold, edited before the one under observation is looked up
+            from tola.assembly.fragment import Fragment as _F
+
+            total = sum(o.length for o in objs)
+            for b0 in (_F("scf", 1, total, 1), _F("scf", bait.start, bait.end, bait.strand)):
+                try:
+                    r0 = ia.find_overlaps(b0)
+                    if r0 is not None and r0.rows:
+                        r0.discard_end()
+                        if r0.rows:
+                            r0.discard_start()
+                except Exception:
+                    pass
         r = ia.find_overlaps(bait)
         if r is None:
             return {"init": None, "steps": []}
